@@ -70,7 +70,8 @@ class Failures:
 
     def add(self, pol, events, post, obs, fails):
         sig = L.signature(pol, self.n, events, post, fails)
-        self.by_sig.setdefault(sig, []).append((len(events), L.pol_name(pol), pol, events, obs, fails))
+        spec = {"exp": post["exp"], "known": post["known"], "live": post["live"]}
+        self.by_sig.setdefault(sig, []).append((len(events), L.pol_name(pol), pol, events, obs, fails, spec))
 
     def report(self):
         counts = {}
@@ -83,10 +84,10 @@ class Failures:
                 if key not in seen:
                     seen.add(key)
                     uniq.append(t)
-            for _, name, pol, events, obs, fails in uniq[:MAX_REPORTED_PER_SIGNATURE]:
+            for _, name, pol, events, obs, fails, spec in uniq[:MAX_REPORTED_PER_SIGNATURE]:
                 what = "%s after %s: %s" % (name, " ; ".join(fmt_event(e) for e in events), "; ".join(f[1] for f in fails[:3]))
                 self.ctx.violation(what, replay={"n": self.n, "policy": pol, "events": events, "observed": obs,
-                                                 "failures": [list(f) for f in fails]}, signature=sig)
+                                                 "spec_post_state": spec, "failures": [list(f) for f in fails]}, signature=sig)
         return counts
 
 
@@ -210,7 +211,6 @@ def simulate(ctx, tag, n, dcs, pols, fails, num, depth, rounds):
         files = sorted(os.listdir(d))
         if not files:
             raise tlc.MachineryError("TLC -simulate wrote no behaviour: %s" % res.out[-2000:])
-        ctx.count("simulate_states", res.generated)
         for fn in files:
             beh = L.parse_sim_with_actions(os.path.join(d, fn))
             nodes = {i: st for i, (_, st) in enumerate(beh)}
@@ -237,7 +237,7 @@ def run(ctx):
     fails = []
     if ctx.quick:
         consts = {"N": 3, "DCs": ["A", "B"]}
-        out = exhaustive(ctx, "q", 3, ("A", "B"), policies_for(3), fails, walks=300, walk_len=14, do_witnesses=True)
+        out = exhaustive(ctx, "q", 3, ("A", "B"), policies_for(3), fails, walks=200, walk_len=12, do_witnesses=True)
         if out is None:
             return
     else:
@@ -277,8 +277,14 @@ def replay(ctx, obj):
         return
     obs = hz.observe()
     print("plan   : %s then %s   distance: %s" % (obs["plan1"], obs["plan2"], obs["dist"]))
-    print("recorded failures: %s" % obj.get("failures"))
-    if obs["plan1"] == obj["observed"]["plan1"] or sorted(obs["plan1"]) == sorted(obj["observed"]["plan1"]):
-        ctx.violation("replayed: same plan as recorded (%s)" % (obj.get("failures") or [["", ""]])[0][1], replay=obj)
+    spec = obj.get("spec_post_state")
+    if spec is None:
+        print("(replay file without specification post-state: nothing to compare with)")
+        return
+    fails = L.check_obs(spec, obs)
+    for f in fails:
+        print("  %s: %s" % (f[0], f[1]))
+    if fails:
+        ctx.violation("replayed: " + "; ".join(f[1] for f in fails[:3]), replay=obj)
     else:
-        print("the real objects now answer differently from the recorded failure")
+        print("the plans and distances satisfy the specification's constraints for this history")
